@@ -599,7 +599,9 @@ class Telnet(protocol.Protocol):
             self.applicationDataReceived(b"".join(appDataBuffer))
 
     def connectionLost(self, reason):
-        for state in self.options.values():
+        # Iterate over a copy: an errback may request another option, which
+        # adds a record.
+        for state in list(self.options.values()):
             if state.us.onResult is not None:
                 d = state.us.onResult
                 state.us.onResult = None
